@@ -273,7 +273,7 @@ def run(ctx):
     proved = ctx.prove('C02', THEOREMS)
     rng = ctx.rng
     cases = []
-    n = 1200 if ctx.thorough else 250
+    n = 6000 if ctx.thorough else 250
     for i in range(n):
         hist = gen_history(rng, ctx.thorough)
         out, esme = asyncio.run(run_real(hist))
